@@ -1,7 +1,7 @@
 (* C06 -- correspondence driver: a generated node configuration, a request history, and what the implementation answered *)
 From Coq Require Import ZArith NArith Bool List.
 Import ListNotations.
-Require Import FV.Base.Util FV.Base.F64 FV.Base.PyVal FV.C01.Model FV.Gen.C06 FV.C06.Model.
+Require Import FV.Base.Util FV.Base.F64 FV.Base.PyVal FV.C01.Model FV.Gen.C06 FV.C06.Model FV.C06.Startup.
 
 Definition odt_eqb := opt_eqb dtype_eqb.
 Definition ostr_eqb := opt_eqb str_eqb.
@@ -57,6 +57,7 @@ Record case := {
   c_ops : list op;
   c_obs : list obs_step;            (* one per operation: reply (or error class) and the updates the connection received *)
   c_rejected : bool;                (* the implementation refused to build the node (configuration error) *)
+  c_links : links;                  (* (control loop, configured output_module) in configuration order *)
 }.
 
 Fixpoint check_steps (E : pyenv) (s : state) (ops : list op) (obs : list obs_step) : bool :=
@@ -71,7 +72,7 @@ Fixpoint check_steps (E : pyenv) (s : state) (ops : list op) (obs : list obs_ste
 Definition check_case (c : case) : bool :=
   forallb (fun m => forallb kind_ok (mc_accs m)) (c_cfg c) &&
   match build (c_cfg c) with
-  | Ok s0 => negb (c_rejected c) && check_steps (c_env c) s0 (c_ops c) (c_obs c)
+  | Ok s0 => negb (c_rejected c) && check_steps (c_env c) (startup (c_links c) s0) (c_ops c) (c_obs c)
   | Err _ => c_rejected c           (* both refuse the configuration *)
   end.
 
@@ -82,7 +83,7 @@ Fixpoint model_steps (E : pyenv) (s : state) (ops : list op) : list (reply * lis
   | o :: r => let '(s', rp, us) := step E s o in (rp, us) :: model_steps E s' r
   end.
 Definition model_result (c : case) : res (list (reply * list upd)) :=
-  build (c_cfg c) >>= fun s0 => Ok (model_steps (c_env c) s0 (c_ops c)).
+  build (c_cfg c) >>= fun s0 => Ok (model_steps (c_env c) (startup (c_links c) s0) (c_ops c)).
 
 (* diagnosis (numbers only, floats are expensive to print): index of the first operation on which model and
    implementation differ, reply agrees?, updates agree?, kind of the model reply, number of model updates,
@@ -121,6 +122,6 @@ Fixpoint first_bad (E : pyenv) (s : state) (ops : list op) (obs : list obs_step)
   end.
 Definition diag (c : case) : option (nat * bool * bool * nat * nat * (nat * nat)) :=
   match build (c_cfg c) with
-  | Ok s0 => first_bad (c_env c) s0 (c_ops c) (c_obs c) 0
+  | Ok s0 => first_bad (c_env c) (startup (c_links c) s0) (c_ops c) (c_obs c) 0
   | Err _ => Some (777, false, false, 0, 0, (0, 0))
   end.
